@@ -146,6 +146,11 @@ func zzC16Wrapper() {
 		// into which the defaults were then written: a panic in the handler goroutine)
 		req.Params.Arguments = json.RawMessage("null")
 	}
+	if vBool("laterRoundOfMultiRoundTripCall") {
+		// a later round of a multi round-trip call (or a client that simply sends the member): input responses are the
+		// client's data — they say nothing about what the server validated; every round is validated and defaulted alike
+		req.Params.InputResponses = InputResponseMap{}
+	}
 	nonObject := !argsAbsent && vBool("argumentsAreNoObject")
 	if nonObject {
 		// an array, a string, a number where the object is expected: invalid under every input schema (type object)
